@@ -425,6 +425,11 @@ func (m *TermVote) Attach(c *sim.Cluster) {
 	}
 }
 
+// GrantedTo returns the candidate that node granted its real vote to in term.
+func (m *TermVote) GrantedTo(node int, term uint64) string {
+	return m.granted[[2]uint64{uint64(node), term}]
+}
+
 func (m *TermVote) term(node int, term uint64, how string) {
 	if term < m.maxTerm[node] && m.pending == nil {
 		m.pending = viol("C08", "term-decreased", "n%d showed term %d after term %d (%s)", node, term, m.maxTerm[node], how)
